@@ -5230,8 +5230,13 @@ class Entity(object, metaclass=EntityMeta):
                 old_vals = {attr: get_val(attr, NOT_LOADED) for attr in avdict}
                 def undo_vals():
                     for attr, old_val in old_vals.items():
-                        if old_val is NOT_LOADED: obj._vals_.pop(attr, None)
-                        else: obj._vals_[attr] = old_val
+                        if old_val is not NOT_LOADED: obj._vals_[attr] = old_val
+                        elif attr in obj._dbvals_:
+                            # the row was loaded by a query made during the call (its database value is known
+                            # now): the attribute cannot go back to "not loaded", it gets the stored value
+                            dbval = obj._dbvals_[attr]
+                            obj._vals_[attr] = dbval if attr.reverse else attr.converters[0].dbval2val(dbval, obj)
+                        else: obj._vals_.pop(attr, None)
                 undo_funcs.append(undo_vals)
                 # (as in Attribute.__set__: the new values are in place before the reverse sides are updated,
                 # a collection passed in the same call can contain the object itself)
